@@ -568,9 +568,51 @@ fn measure(main: &Path, out: &mut NdjsonOut) {
     });
     phase("change2", out);
     let _ = state.shutdown_server();
+    out.emit(&json!({"ev":"SaveProbe","yields":save_probe(main)}));
     let full = out_checks(main, false);
     let cached = out_checks(main, true);
     out.emit(&json!({"ev":"Tails","full":full,"cached":cached}));
+}
+
+/// Does a didSave that finds the request of a didChange still queued back off (true) or replace
+/// it (false)?  didOpen runs freely to its end; then, controlled, didChange queues its request
+/// (the worker is held before rx.recv()) and didSave is granted H.load and H.isFull.
+fn save_probe(main: &Path) -> Option<bool> {
+    let gen = new_generation(true);
+    let uri = Url::from_file_path(main).unwrap();
+    let state = Arc::new(ServerState::default());
+    let results = Arc::new(Mutex::new(BTreeMap::new()));
+    let rt = tokio::runtime::Builder::new_current_thread().enable_all().build().unwrap();
+    ROLE.with(|r| *r.borrow_mut() = Some((gen, "M".to_string())));
+    rt.block_on(async {
+        let _ = notification::handle_did_open_text_document(&state, open_params(&uri)).await;
+    });
+    // the worker must be back in rx.recv() (not at a step point) before control is switched on
+    std::thread::sleep(Duration::from_millis(150));
+    set_controlled();
+    let mut handles = vec![];
+    handles.push(spawn_handler(gen, "C1".to_string(), state.clone(), uri.clone(), results.clone()));
+    handles.push(spawn_handler(gen, "S1".to_string(), state.clone(), uri.clone(), results.clone()));
+    let mut res = None;
+    'exp: {
+        if !advance_to("C1", "H.send") || grant("C1", "H.send").is_err() {
+            break 'exp;
+        }
+        // the worker wakes up in recv and stops at W.recv: the request is "running", is_compiling is up
+        if settle("W", Duration::from_secs(10)) != Some(Pos::At("W.recv".into())) {
+            break 'exp;
+        }
+        if !advance_to("S1", "H.load") || grant("S1", "H.load").is_err() {
+            break 'exp;
+        }
+        match settle("S1", Duration::from_secs(10)) {
+            Some(Pos::At(p)) if p == "H.setRetrigger" => res = Some(false),
+            Some(Pos::At(p)) if p.starts_with("T.") => res = Some(true),
+            _ => {}
+        }
+    }
+    cleanup(state, &uri, handles, 60);
+    res
 }
 
 /// abort tails for every check point of a full / cached compilation (stops at the first k that
